@@ -2,6 +2,7 @@ import os
 import sys
 sys.path.insert(0, os.path.join(os.path.dirname(os.path.abspath(__file__)), '..', 'solver'))
 import common
+import formulas
 from core import Fn, Target
 
 
@@ -20,23 +21,61 @@ def build(tier):
     ts = common.targets(['NV_C01'])
     ts.append(Target('state_gradient_test', [gt], 'specs/C01/gradient_test.h'))
     ts.append(Target('state_gradient_test0', [gt0, gt], 'specs/C01/gradient_test.h', replace=['state_gradient_test']))
+    bounded, finfo = formulas.build(tier)
     return {
-        'targets': ts, 'vcs': [],
-        'decided': ['truthfulness of `converged` for gd, cgd-*, lbfgs, bfgs/dfp/sr1/hoshino/fletcher (their four do_minimize bodies): the returned state has status converged only if its own gradient test -- evaluated on its own value and gradient, one consistent evaluation -- was below epsilon, for every line search, function and tolerance (both havocked)',
+        'targets': ts, 'vcs': [], 'bounded': bounded, 'functions': finfo,
+        'decided': ['BOUNDED (vector dimension n = 1, 2, 3; L-BFGS history of 0, 1, 2 pairs; reals): the update formulas satisfy the secant equation / equal the '
+                    'textbook formulas: the mechanism the convergence clause rests on.  quasi-Newton: every inverse-Hessian update of src/solver/quasi.cpp '
+                    '(SR1 with and without skipping rule, DFP_, DFP, BFGS_, BFGS, HOSHINO, FLETCHER) gives H+ dg == dx, keeps a symmetric H symmetric, and equals '
+                    'its textbook formula (BFGS: (I - r dx dg\')H(I - r dg dx\') + r dx dx\'; DFP: H + dx dx\'/(dx.dg) - H dg dg\' H/(dg.H.dg); Hoshino / Fletcher: '
+                    'the Broyden-family member with their switch parameter); the five update overrides hand (H, x+ - x, g+ - g) to their formula; one iteration of '
+                    'solver_quasi_t::do_minimize hands -H g to the line search (H = I at the start, -g with H reset to I when -H g is not a descent direction) and '
+                    'calls update with the states before / after the line search.  L-BFGS: the two-loop recursion of solver_lbfgs_t::do_minimize returns '
+                    '-H_k g with H_k the textbook L-BFGS matrix of the stored pairs and initial matrix (s.y / y.y) I of the most recent pair (N&W (7.19), (7.20)), '
+                    'in particular H_k y_last == s_last; the stored pairs are (x+ - x, g+ - g) of the last `history` iterations.  CGD: the ten beta formulas equal '
+                    'their textbook definitions, each cgd-* solver uses its own, the direction is -g + beta d, restarted to -g exactly when the code\'s restart test '
+                    '(not a descent direction, or Powell\'s |g.pg| >= orthotest g.g) fires.  For all three: the direction handed to the line search is a descent '
+                    'direction whenever g != 0',
+                    'truthfulness of `converged` for gd, cgd-*, lbfgs, bfgs/dfp/sr1/hoshino/fletcher (their four do_minimize bodies): the returned state has status converged only if its own gradient test -- evaluated on its own value and gradient, one consistent evaluation -- was below epsilon, for every line search, function and tolerance (both havocked)',
                     'gradient_test(gx) = lpNorm_inf(gx) / max(1, |fx|), gradient_test() passes the state\'s own gradient'],
-        'not_decided': ['convergence within 1500 evaluations and the accuracy bound on quadratics (first sentence of the property): global convergence of a floating-point quasi-Newton iteration is not a per-call contract',
+        'not_decided': ['convergence within 1500 evaluations and the accuracy bound on quadratics (first sentence of the property): global convergence of a floating-point quasi-Newton iteration is not a per-call contract; the update formulas it rests on are checked over the reals at n <= 3 only (bounded stand-ins, never counted as proved)',
+                        'the update formulas in floating point (rounding, cancellation in dx.dg), and Eigen storage aliasing in `H = expression of H`',
                         'NaN handling inside Eigen reductions'],
         'assumptions': ['solver_state_t{function, x0} and state.update(x) are one evaluation at the given point (assumed contract)',
                         'Eigen lpNorm<Infinity> returns max_k |g_k| (assumed contract of the dependency)',
-                        'all vector algebra of the solvers is erased (listed per run under dropped_statements); the line search is used through the contract proved in C07'],
+                        'all vector algebra of the solvers is erased in the CBMC targets (listed per run under dropped_statements); the line search is used through the contract proved in C07',
+                        'formula obligations: double is treated as real; Eigen / nano tensor operators (+ - * / on vectors and matrices, products, transpose, dot, norm, identity) have their mathematical meaning and a right-hand side is evaluated before it is assigned (closed list: docstring of specs/C01/linalg.py and specs/C06/eig.py)',
+                        'formula obligations, preconditions stated as hypotheses: curvature along the accepted step dx.dg != 0 (guaranteed by line searches that enforce a Wolfe curvature condition, an assumption for Armijo-only backtracking), dg.H.dg != 0 where the DFP term occurs (H positive definite), dx.dg != dg.H.dg where Fletcher / SR1 divide by it, s_i.y_i != 0 for every stored L-BFGS pair, cgd: pg.pg != 0, pd.pg != 0, pd.y != 0, pd != 0, eta > 0; guarded SR1: r > 0, dx != 0 and dx != H dg (for dx == H dg the code divides 0 by 0 and H becomes NaN: the skipping rule |denom| >= r |dx| |dx - H dg| holds as 0 >= 0; do_minimize masks it by its restart)',
+                        'formula obligations: solver_state_t is a pair of vectors (x, gx); the state after lsearch.get and the values of gradient_test / done / valid / fcalls / gcalls / parameters are arbitrary; has_descent(d) == (gx.d < 0) is the contract proved in C07 (pred_smt)'],
         'trusted': [],
     }
+
+
+_REPLAYED = {}
 
 
 def replay(rp):
     """protocol counterexamples of solver_t::done / do_minimize are driven on the real solvers by a scripted function"""
     import replaylib
     out = {'reproduced': False, 'runs': []}
+    family = {'quasi': 'quasi', 'lbfgs': 'lbfgs', 'cgd': 'cgd'}.get(rp['target'].split('_')[0]) if '[' in rp['target'] else None
+    if '/mut_C01_' in os.environ.get('NV_SCRATCH', '') or os.environ.get('NV_NO_NATIVE_REPLAY'):
+        # canary-mutation self test of the thorough tier (it only looks at the refuted obligation; its private scratch would force a
+        # full library build per canary) / mutation loops
+        out['skipped'] = 'canary-mutation run / NV_NO_NATIVE_REPLAY'
+        return out
+    if family:
+        # formula obligations: the real solver runs on a fixed quadratic with a spy line search that records the direction it is handed;
+        # the driver recomputes the textbook direction from the recorded states (replay/C01_formulas_replay.cpp)
+        if family not in _REPLAYED:
+            exe = replaylib.build_with_library('replay/C01_formulas_replay.cpp', 'C01_formulas_replay')
+            _REPLAYED[family] = replaylib.run_driver(exe, [family])
+        rc, so, se = _REPLAYED[family]
+        out['runs'].append({'args': [family], 'exit': rc, 'output': so.strip()[:3000]})
+        out['reproduced'] = rc == 1
+        if rc != 1:
+            out['note'] = 'the directions on the replay quadratic agree with the textbook ones: the refuted clause does not show in this scenario'
+        return out
     if not any(k in rp['target'] for k in ('solver_done', 'do_minimize')):
         out['note'] = 'no scripted function for this target: the replay file carries the verifier output only'
         return out
